@@ -341,7 +341,7 @@ def cmp_sections(model, impl, which, mode):
     secs = ["vals", "aud", "pumps", "blowers", "lights", "sensors", "bsensors", "eco"]
     for s in secs:
         m, i = model.get(s, "?"), impl.get(s, "?")
-        if which == "sync" and s in ("aud", "pumps", "blowers", "lights"):      # the threaded order is D10: compare as multisets
+        if which == "sync" and s in ("aud", "pumps", "blowers", "lights"):      # a hash-set de-dup (former D10) fixes no order: compare as multisets
             m, i = sorted(m.split(",")), sorted(i.split(","))
         if m != i:
             bad.append(s)
